@@ -122,6 +122,8 @@ Not proved (`construct_total_partial`): for `det ctrb(A, b) ≠ 0` and `0 < n`,
 `∃ L, LinFlat.construct A b = .ok L` — i.e. that the code-following computation through the
 companion matrix (`Wrz Wrx⁻¹`, flipped) always passes the certificate.  Missing: the powers of the
 companion matrix applied to `e₀`.  `construct_valid` + `reachable_flat_exists` are what is proved.
+(Now proved in `Props/C20Cert.lean`: `linflat_valid`, `linflat_never_cert`, for every field of
+characteristic zero.)
 -/
 
 /-! ### end points -/
